@@ -48,7 +48,7 @@ func op(name string, b byte) sym { return sym{name: name, enc: []byte{b}} }
 // SHA256 (doHash: SHA3), NUMEQUAL/NUMNOTEQUAL/GREATERTHAN/LESSTHANOREQUAL/
 // GREATERTHANOREQUAL (doNumCompare: LESSTHAN), DATA_2..75/PUSHDATA1-4/OP_2..16 (opPushdata).
 var alphabet = []sym{
-	op("0", 0x00), op("1", 0x51), {name: "DATA_1:02", enc: []byte{0x01, 0x02}},
+	op("0", 0x00), op("1", 0x51), {name: "DATA_1:05", enc: []byte{0x01, 0x05}},
 	op("NOP", 0x61), op("NOPx50", 0x50),
 	{name: "JUMP", enc: []byte{0x63}, jump: true}, {name: "JUMPIF", enc: []byte{0x64}, jump: true},
 	op("VERIFY", 0x69), op("FAIL", 0x6a), op("CHECKPREDICATE", 0xc0),
@@ -346,6 +346,23 @@ func (o *outcome) checkEnd(L int64) {
 	}
 }
 
+func deepCopy(st [][]byte) [][]byte {
+	if len(st) == 0 {
+		return nil
+	}
+	n := 0
+	for _, it := range st {
+		n += len(it)
+	}
+	flat := make([]byte, 0, n)
+	out := make([][]byte, len(st))
+	for i, it := range st {
+		flat = append(flat, it...)
+		out[i] = flat[len(flat)-len(it):]
+	}
+	return out
+}
+
 func sameStack(a, b [][]byte) bool {
 	if len(a) != len(b) {
 		return false
@@ -397,6 +414,9 @@ type probed struct {
 }
 
 type worker struct {
+	lprog      []byte
+	largs      [][]byte
+	damaged    int
 	stepsTotal int
 	stepsMax   int
 	probes     []probed
@@ -460,6 +480,7 @@ func (w *worker) report(pl plan, prog []byte, args [][]byte, L int64, o outcome,
 
 func (w *worker) run(pl plan, prog []byte, args [][]byte, L int64) outcome {
 	w.runs++
+	w.restore(prog, args)
 	o := runMon(w.ctx, L)
 	if o.steps > w.maxSteps {
 		w.maxSteps = o.steps
@@ -477,10 +498,37 @@ func (w *worker) run(pl plan, prog []byte, args [][]byte, L int64) outcome {
 	return o
 }
 
+// load gives the VM private exact-capacity copies of the program and the arguments. The values
+// handed in by the enumerators are never seen by the VM: a run can write into the memory it is
+// given (property C06: LEFT/SUBSTR results keep spare capacity and CAT appends in place), and
+// that must not leak into the next run.
+func (w *worker) load(prog []byte, args [][]byte) {
+	w.lprog = exact(prog...)
+	w.largs = w.largs[:0]
+	for _, a := range args {
+		w.largs = append(w.largs, exact(a...))
+	}
+	w.ctx.Code, w.ctx.Arguments = w.lprog, w.largs
+}
+
+// restore rewrites the private copies before a run (and counts runs that had damaged them).
+func (w *worker) restore(prog []byte, args [][]byte) {
+	dirty := !bytes.Equal(w.lprog, prog)
+	copy(w.lprog, prog)
+	for i, a := range args {
+		dirty = dirty || !bytes.Equal(w.largs[i], a)
+		copy(w.largs[i], a)
+	}
+	if dirty {
+		w.damaged++
+	}
+}
+
 func (w *worker) evalCase(pl plan, prog []byte, args [][]byte) {
 	w.cases++
-	w.ctx.Code, w.ctx.Arguments = prog, args
+	w.load(prog, args)
 	base := w.run(pl, prog, args, bigLimit)
+	base.data, base.alt = deepCopy(base.data), deepCopy(base.alt) // later runs reuse the memory the items point into
 	w.classes[base.class]++
 	if base.okSteps >= 2 {
 		w.nontrivial++
@@ -493,6 +541,7 @@ func (w *worker) evalCase(pl plan, prog []byte, args [][]byte) {
 	}
 	if pl.verify && base.v == nil {
 		w.verified++
+		w.restore(prog, args)
 		g, err := vm.Verify(w.ctx, bigLimit)
 		c := classOf(err)
 		if c != base.class || (c != "unexpected" && g != base.gasLeft) {
@@ -761,7 +810,7 @@ func main() {
 				for _, pred := range preds[from:to] {
 					// the child's own need on the moved items decides the "exact" child limits
 					moved := b.items[len(b.items)-b.moved:]
-					w.ctx.Code, w.ctx.Arguments = pred, moved
+					w.load(pred, moved)
 					w.runs++
 					cb := runMon(w.ctx, bigLimit)
 					lims := [][]byte{itZ, itO, pushNum(2000)}
@@ -789,7 +838,7 @@ func main() {
 	}
 
 	// ---- family F3: refund-heavy sequences beyond the F1 bound, and loops over them
-	pushes := [][]byte{{0x00}, {0x51}, {0x01, 0x02}, pad}
+	pushes := [][]byte{{0x00}, {0x51}, {0x01, 0x05}, pad}
 	refunds := [][]byte{{0x75}, {0x6d}, {0x77}, {0x69}}
 	seqs := func(al [][]byte, maxN int) [][]byte {
 		out, prev := [][]byte{}, [][]byte{{}}
@@ -918,6 +967,7 @@ func main() {
 		run.Add("cases_need_above_5000", w.needMore)
 		run.Add("failed_steps_leaving_unpaid_push", w.unpaid)
 		run.Add("verify_crosschecks", w.verified)
+		run.Add("runs_that_wrote_into_their_own_program_or_arguments", w.damaged)
 		run.Add("instructions_executed", w.stepsTotal)
 		run.Add("instructions_executed_under_max_gas", w.stepsMax)
 		if w.maxNeed > maxNeed {
